@@ -2,6 +2,7 @@ import TriompheModel.WM.Unique
 import TriompheModel.WM.Example
 import TriompheModel.WM.Weak
 import TriompheModel.Generated.Atomics
+import TriompheModel.Props.Gates
 /-!
 # C02 — concurrent clone/drop: one destroyer, ordered after every thread's last access
 
@@ -115,5 +116,28 @@ theorem C02_release_needed :
     ¬ Weak.exX.hb (.oth (1 : Weak.EA)) (.oth (3 : Weak.EA)) ∧
     ¬ Weak.exX.hb (.oth (3 : Weak.EA)) (.oth (1 : Weak.EA)) :=
   ⟨Weak.ex_consistent, Weak.ex_protocol, Weak.release_needed.1, Weak.release_needed.2⟩
+
+/-! ## the other way memory is released: moving the value out
+
+`try_unwrap` / `try_unique`+`into_inner` / `unwrap_or_clone` free the block WITHOUT a decrement, on the
+strength of their uniqueness gate.  The property's "every access … happens-before the release of the
+memory" therefore also needs those gates to be Acquire loads compared with 1. -/
+
+theorem obl_consuming_gates_acquire :
+    (Gates.gateOk "Arc::try_unique" && Gates.gateOk "Arc::try_unwrap" && Gates.gateOk "Arc::unwrap_or_clone" &&
+     Gates.gateOk "UniqueArc::try_from") = true := by decide
+
+/-- **C02 (move-out path).**  When a consuming gate succeeded through handle `h`, every access ever
+made through any other handle happens-before the gate's load — hence before the value is moved out
+and the block freed — and (`WM.consume_is_end`) no RMW on the count can follow. -/
+theorem C02_move_out_after_all (hc : Consistent X) (hp : Protocol X Generated.decOrd fenceOrd)
+    (hrw : CoRW X) (hvb : ViaBorn X) {l : X.A} {h : H} {o : MemOrd} {rf : Option Nat}
+    (c : Consume X l h o rf) :
+    (∀ (a : X.A) (h' : H), (X.kind a).via = some h' → h' ≠ h →
+      (h' = 0 ∨ ∃ j, rf = some j ∧ h' ∈ kids (X.ops.take (j+1))) → X.hb (.oth a) (.oth l)) ∧
+    X.ops.length ≤ prefixLen rf ∧ (¬ ∃ f k, X.kind f = .destroy k) :=
+  ⟨consume_after_all_former_sharers hc hp hrw hvb obl_dec_release c,
+   (consume_is_end hc hp hrw hvb c).1,
+   fun ⟨_, _, hf⟩ => consume_excludes_destroy hc hp hrw hvb c hf⟩
 
 end C02
